@@ -226,6 +226,7 @@ func (e *Engine) SynthesizeHandlerContracts(regs []Registration, template string
 			ct.HasMod = tpl.HasMod
 			ct.Modifies = tpl.Modifies
 		}
+		ct.LoopInv = append(append([]Clause{}, tpl.LoopInv...), ct.LoopInv...)
 	}
 	return nil
 }
